@@ -40,6 +40,11 @@ Definition fn_interp (f : nat) (args : list val) : option val :=
   | 7 => match args with [VInt z] => Some (VInt (z + 1)) | _ => None end                     (* inc *)
   | 8 => match args with [VInt z] => Some (VList [VInt z; VInt z]) | _ => None end           (* pair *)
   | 9 => Some (VStr (kind_join (map kind_of args)))                                          (* kind: type-sensitive *)
+  | 10 => match args with                                                                    (* dsum(d: dict): gsum on the dict *)
+          | [VMap m] => option_map (fun zs => VInt (fold_left Z.add zs 0%Z)) (all_ints (map snd m))   (* the parameter annotation *)
+          | [_] => Some (VInt (-1)%Z)                                                        (* makes the code hand over as_dict(); *)
+          | _ => None                                                                        (* anything but a dict: -1 *)
+          end
   | _ => None
   end.
 
@@ -77,7 +82,9 @@ Record case := {
   o_pre2 : option val;
   o_parse2 : option pres;
   o_save : option val;       (* save(multifile=True): the main file with every nested file it refers to put back in place *)
-  o_reparse : option pres }.
+  o_reparse : option pres;
+  o_given : option pres }.   (* the first input was REJECTED (parsers with class-typed arguments): the same input with a value
+                                given for every linked init_arg in every class spec whose class takes the parameter *)
 
 Definition res_agrees (r : res val) (o : pres) : bool :=
   match r, o with
@@ -163,8 +170,16 @@ Definition judge_flat (c : case) : verdict :=
                   | Some PCrash => false
                   | _ => true
                   end in
+  (* the target is not required from the user: when every link is applied the given values are overwritten, so the
+     input without them ends in the same configuration and must not have been rejected *)
+  let s_given := match o_parse c, o_given c with
+                 | PRejected, Some (POk cg) =>
+                     negb (forallb (fun l => match mapM (get cg) (s_src l) with Some _ => true | None => false end) sl
+                           && invariant fn_interp ckeys sl cg)
+                 | _, _ => true
+                 end in
   let s_core :=
-    s_second && not_required sl (o_required c)
+    s_second && s_given && not_required sl (o_required c)
     && match o_parse c with
        | POk cfg =>
            negb (uses_target_option ckeys sl (options_of x))
